@@ -104,12 +104,16 @@ pub fn run(stdout: &mut StandardStream, hy_opt: &HyeongOption) -> Result<(), Err
                 err.flush().unwrap();
                 is_running = false;
             } else {
-                state_stack.push(execute::execute_one(
-                    &mut stdin(),
+                state_stack.push(io::flush_on_err(
+                    execute::execute_one(
+                        &mut stdin(),
+                        &mut out,
+                        &mut err,
+                        state_stack.last().unwrap().0.clone(),
+                        state_stack.last().unwrap().1,
+                    ),
                     &mut out,
                     &mut err,
-                    state_stack.last().unwrap().0.clone(),
-                    state_stack.last().unwrap().1,
                 )?);
             }
         } else {
@@ -141,12 +145,16 @@ pub fn run(stdout: &mut StandardStream, hy_opt: &HyeongOption) -> Result<(), Err
                             true,
                         )?;
 
-                        state_stack.push(execute::execute_one(
-                            &mut stdin(),
+                        state_stack.push(io::flush_on_err(
+                            execute::execute_one(
+                                &mut stdin(),
+                                &mut out,
+                                &mut err,
+                                state_stack.last().unwrap().0.clone(),
+                                state_stack.last().unwrap().1,
+                            ),
                             &mut out,
                             &mut err,
-                            state_stack.last().unwrap().0.clone(),
-                            state_stack.last().unwrap().1,
                         )?);
 
                         out.flush().unwrap();
@@ -165,12 +173,16 @@ pub fn run(stdout: &mut StandardStream, hy_opt: &HyeongOption) -> Result<(), Err
                     }
 
                     "run" | "r" => {
-                        state_stack.push(execute::execute_one(
-                            &mut stdin(),
+                        state_stack.push(io::flush_on_err(
+                            execute::execute_one(
+                                &mut stdin(),
+                                &mut out,
+                                &mut err,
+                                state_stack.last().unwrap().0.clone(),
+                                state_stack.last().unwrap().1,
+                            ),
                             &mut out,
                             &mut err,
-                            state_stack.last().unwrap().0.clone(),
-                            state_stack.last().unwrap().1,
                         )?);
 
                         is_running = true;
